@@ -32,6 +32,7 @@ type e3Call struct {
 	AEAdmin bool              `json:"ae_admin,omitempty"`
 	ReqID   string            `json:"req_id,omitempty"`
 	CtxMs   int               `json:"ctx_ms,omitempty"`
+	NoUID   bool              `json:"no_user_id,omitempty"` // the Users API knows no user ID for this account
 }
 
 type c17BackendRec struct {
@@ -80,18 +81,30 @@ type c17CollideSpec struct {
 	AnswerBody string `json:"answer_body"`
 }
 
+// c17CacheXSpec: two extra private backends for the same prefix, one per user; user A's GET is answered with a
+// cacheable 200 by backend A's agent; then user B GETs the same URL.
+type c17CacheXSpec struct {
+	A          e3Call        `json:"a"`
+	B          e3Call        `json:"b"`
+	RegA       c17BackendRec `json:"rega"`
+	RegB       c17BackendRec `json:"regb"`
+	AnswerBody string        `json:"answer_body"`
+}
+
 // e3Fault fails the Nth call of service.method made by one handler invocation.
 type e3Fault struct {
 	Service string `json:"service"`
 	Method  string `json:"method"`
-	Nth     int    `json:"nth"`
+	Nth     int    `json:"nth"` // the Nth call fails; 0 = every call
 	Timeout bool   `json:"timeout,omitempty"`
+	UpTo    int    `json:"up_to,omitempty"` // the first UpTo calls fail
 }
 
 type c17Case struct {
 	Faults  []e3Fault       `json:"faults,omitempty"`
 	Burst   []e3Call        `json:"burst,omitempty"` // client requests issued all at once
 	Collide *c17CollideSpec `json:"collide,omitempty"`
+	CacheX  *c17CacheXSpec  `json:"cachex,omitempty"`
 	I       int             `json:"i"`
 	Call    e3Call          `json:"call"`
 	Keep    bool            `json:"keep,omitempty"`
@@ -380,6 +393,22 @@ func c17GenCases(rng *rand.Rand, wd *c17World, keepFrac float64, history bool) {
 				}
 				wd.add(c)
 			}
+		}
+	}
+
+	// the response cache across users: two users (with and without a user ID in the Users API), each with a private
+	// backend of his own for the same prefix; A's GET is answered with a cacheable 200, then B GETs the same URL
+	if wn, _ := strconv.Atoi(strings.TrimPrefix(w, "w")); wn%2 == 0 {
+		for v := 0; v < 2; v++ {
+			ua, ub := fmt.Sprintf("reader-a%d-%s@partner.example.org", v, w), fmt.Sprintf("reader-b%d-%s@partner.example.org", v, w)
+			pfx := fmt.Sprintf("/cachex%d/", v)
+			url := pfx + "page?x=" + w
+			sp := &c17CacheXSpec{AnswerBody: fmt.Sprintf("page-rendered-for-%s", ua),
+				RegA: c17BackendRec{ID: fmt.Sprintf("cxa%d-%s", v, w), BackendUser: fmt.Sprintf("cx-agent-a%d-%s@sa.example.com", v, w), EndUser: ua, PathPrefixes: []string{pfx}},
+				RegB: c17BackendRec{ID: fmt.Sprintf("cxb%d-%s", v, w), BackendUser: fmt.Sprintf("cx-agent-b%d-%s@sa.example.com", v, w), EndUser: ub, PathPrefixes: []string{pfx}}}
+			sp.A = e3Call{Module: "default", Method: "GET", Path: url, AEUser: ua, ReqID: fmt.Sprintf("cl-%s-cx%d-a", w, v), NoUID: v == 0}
+			sp.B = e3Call{Module: "default", Method: "GET", Path: url, AEUser: ub, ReqID: fmt.Sprintf("cl-%s-cx%d-b", w, v), NoUID: v == 0}
+			wd.add(&c17Case{CacheX: sp, Meta: c17Meta{Kind: "user-cachex", Endpoint: "client", Ident: []string{"users-without-user-id", "users-with-user-id"}[v], Email: ub}})
 		}
 	}
 
@@ -689,8 +718,10 @@ func c17GenCases(rng *rand.Rand, wd *c17World, keepFrac float64, history bool) {
 	}
 	// the same agent calls with one failing store read each: a transient error must never turn a cross-backend
 	// or unauthorised call into an accepted one
-	variants := []e3Fault{{"datastore_v3", "Get", 1, false}, {"datastore_v3", "Get", 2, true}, {"datastore_v3", "Get", 3, false},
-		{"memcache", "Get", 1, false}, {"memcache", "Get", 2, false}, {"datastore_v3", "RunQuery", 1, true}}
+	variants := []e3Fault{{"datastore_v3", "Get", 1, false, 0}, {"datastore_v3", "Get", 2, true, 0}, {"datastore_v3", "Get", 3, false, 0},
+		{"memcache", "Get", 1, false, 0}, {"memcache", "Get", 2, false, 0}, {"datastore_v3", "RunQuery", 1, true, 0}}
+	// outages: the first two, the first three, every datastore read of the call fails (memcache stays up)
+	outages := []e3Fault{{Service: "datastore_v3", Method: "Get", UpTo: 2}, {Service: "datastore_v3", Method: "Get", UpTo: 3}, {Service: "datastore_v3", Method: "Get", Nth: 0}}
 	base := append([]*c17Case(nil), wd.Cases...)
 	for _, src := range base {
 		m := src.Meta
@@ -700,7 +731,7 @@ func c17GenCases(rng *rand.Rand, wd *c17World, keepFrac float64, history bool) {
 		var use []e3Fault
 		switch {
 		case m.NamedCls == "own" && m.Endpoint != "pending" && (strings.HasPrefix(m.RIDCls, "other-") || m.RIDCls == "unknown" || m.RIDCls == "crafted-collision"):
-			use = variants
+			use = append(append([]e3Fault{}, variants...), outages...)
 		case m.NamedCls == "own" && m.Endpoint == "pending":
 			use = []e3Fault{variants[0], variants[5]}
 		case m.NamedCls == "own":
@@ -709,12 +740,22 @@ func c17GenCases(rng *rand.Rand, wd *c17World, keepFrac float64, history bool) {
 			if rng.Float64() < keepFrac {
 				use = []e3Fault{variants[rng.Intn(len(variants))]}
 			}
+			// a caller that is not the backend's agent, naming a registered backend and one of its requests,
+			// while the backend record cannot be read: must stay locked out
+			if m.NamedCls == "other" && m.Endpoint != "pending" && strings.HasSuffix(m.RIDCls, "-pending") && rng.Float64() < 2*keepFrac {
+				use = append(use, outages[rng.Intn(len(outages))])
+			}
 		}
 		for _, fv := range use {
 			fv.Timeout = fv.Timeout != (len(wd.Cases)%2 == 0)
 			cp := *src
 			cp.Faults = []e3Fault{fv}
 			cp.Meta.Fault = fmt.Sprintf("%s.%s#%d", map[string]string{"datastore_v3": "datastore", "memcache": "memcache"}[fv.Service], fv.Method, fv.Nth)
+			if fv.UpTo > 0 {
+				cp.Meta.Fault = fmt.Sprintf("datastore.%s#1-%d", fv.Method, fv.UpTo)
+			} else if fv.Nth == 0 {
+				cp.Meta.Fault = fmt.Sprintf("datastore.%s#all", fv.Method)
+			}
 			wd.add(&cp)
 		}
 	}
@@ -739,6 +780,9 @@ type c17Result struct {
 	ListedIn []string            `json:"listed_in"`
 	Fired    int                 `json:"fault_fired"`
 	Collide  bool                `json:"collide"`
+	CacheX   bool                `json:"cachex"`
+	SetupErr string              `json:"setup_err"`
+	APosted  int                 `json:"a_posted"`
 	AListed  []string            `json:"a_listed"`
 	AAgent   []struct {
 		ID          string `json:"id"`
@@ -1132,6 +1176,28 @@ func (wd *c17World) judge(r *core.Run, c *c17Case, res *c17Result, st *c17State)
 				viol("admin-"+m.Endpoint+"-fails", fmt.Sprintf("status %d", res.Status))
 			}
 		}
+	case "user-cachex":
+		sp := c.CacheX
+		if res.SetupErr != "" {
+			r.Broken(fmt.Sprintf("C17 %s/%d: %s", wd.ID, c.I, res.SetupErr))
+			return
+		}
+		if res.AHung || res.BHung {
+			viol("handler-hangs:user:client", "a client handler did not return")
+		}
+		if res.APosted > 0 && (res.AStatus != 200 || res.ABody != sp.AnswerBody) {
+			viol("end-user-did-not-receive-own-backends-response", fmt.Sprintf("backend %q's agent answered; its end user got %d %q", sp.RegA.ID, res.AStatus, core.Trunc(res.ABody, 80)))
+		}
+		if strings.Contains(res.BBody, sp.AnswerBody) || res.BStatus/100 == 2 {
+			viol("end-user-received-another-users-cached-response", fmt.Sprintf("end user %q (entitled to backend %q only, which did not answer) got status %d %q for the URL that %q had fetched from backend %q before", sp.B.AEUser, sp.RegB.ID, res.BStatus, core.Trunc(res.BBody, 80), sp.A.AEUser, sp.RegA.ID))
+		}
+		found := false
+		for _, id := range res.BPending {
+			found = found || id == sp.B.ReqID
+		}
+		if !found && res.BStatus != 404 && !strings.Contains(res.BBody, sp.AnswerBody) {
+			viol("user-request-not-queued-for-own-backend", fmt.Sprintf("end user %q: status %d, request not pending for backend %q", sp.B.AEUser, res.BStatus, sp.RegB.ID))
+		}
 	case "user-collide":
 		sp := c.Collide
 		if res.AHung || res.BHung {
@@ -1283,7 +1349,7 @@ func (c *c17Case) class() string {
 
 // C17 — who may act as agent, user and admin.
 func C17(r *core.Run) {
-	r.SetRule("worlds of 1-3 registered backends (distinct/shared agent accounts, per-user/shared end users, plain and exotic IDs, IDs related across a separator (B2 = B1<sep>word for sep in : / | \" space . % \\) with request IDs crafted so that (backend, request ID) read across the separator names another backend's request, pending and answered requests with planted secrets) x caller identity {no OAuth, stranger, OAuth admin that is no agent, each agent} x endpoint {pending, request, response} x named backend {each, unknown, absent} x request ID {pending/answered of each backend, unknown, absent}; admin API {list, add, takeover, garbage, delete, other methods/paths} x {App Engine admin, OAuth admin, plain user, agent, nobody} with follow-up calls on the resulting state; end users x paths through the client handler (also: owner/other-user alternations and concurrent bursts on private prefixes; two users of different private backends in flight with client-supplied X-Inverting-Proxy-Request-ID / -Backend-ID / -User-ID headers of equal values while only one backend's agent answers - the other user must not receive that answer); scripted histories (agent works, the same backend ID is registered again for another agent account and end user, old and new agent on every endpoint, former and new end user through the client handler, unregister, original registration restored) and random-order histories, both judged against an evolving model of who is registered; the cross-backend, unknown-ID and unauthorised agent calls repeated with one failing store read each (k-th datastore Get / memcache Get / RunQuery of that handler invocation, internal error or timeout: acceptance and foreign writes stay forbidden, 4xx/5xx are admissible); every call goes through appengine's handleHTTP and the app's routing closure; class = (kind, endpoint, identity class, named-backend class, request-ID class, history?)")
+	r.SetRule("worlds of 1-3 registered backends (distinct/shared agent accounts, per-user/shared end users, plain and exotic IDs, IDs related across a separator (B2 = B1<sep>word for sep in : / | \" space . % \\) with request IDs crafted so that (backend, request ID) read across the separator names another backend's request, pending and answered requests with planted secrets) x caller identity {no OAuth, stranger, OAuth admin that is no agent, each agent} x endpoint {pending, request, response} x named backend {each, unknown, absent} x request ID {pending/answered of each backend, unknown, absent}; admin API {list, add, takeover, garbage, delete, other methods/paths} x {App Engine admin, OAuth admin, plain user, agent, nobody} with follow-up calls on the resulting state; end users x paths through the client handler (also: owner/other-user alternations and concurrent bursts on private prefixes; two users of different private backends in flight with client-supplied X-Inverting-Proxy-Request-ID / -Backend-ID / -User-ID headers of equal values while only one backend's agent answers - the other user must not receive that answer; the response cache across users with and without a user ID in the Users API); scripted histories (agent works, the same backend ID is registered again for another agent account and end user, old and new agent on every endpoint, former and new end user through the client handler, unregister, original registration restored) and random-order histories, both judged against an evolving model of who is registered; the cross-backend, unknown-ID and unauthorised agent calls repeated with one failing store read each (k-th datastore Get / memcache Get / RunQuery of that handler invocation, or the first two / first three / all datastore Gets, internal error or timeout: acceptance and foreign writes stay forbidden, 4xx/5xx are admissible); every call goes through appengine's handleHTTP and the app's routing closure; class = (kind, endpoint, identity class, named-backend class, request-ID class, history?)")
 	r.Assume("/cron/delete is executed but not judged (documented as restricted by app.yaml); an authorised call reading or writing keys in its own backend's namespace that merely contain a caller-supplied foreign request ID is not counted as touching the other backend; status codes for unknown/absent request IDs are only required to be 4xx; client requests are cut short once queued (incoming context cancelled) instead of waiting 30 s")
 	bin := r.MustBuild(e3Build(r))
 	rng := r.Rand("c17")
